@@ -30,7 +30,7 @@ from parallel import driver_parallel  # noqa: E402
 
 PROPS = ['FinVerif.Props.C01', 'FinVerif.Props.C01b', 'FinVerif.Props.C01c', 'FinVerif.Props.C01d', 'FinVerif.Props.C01e']
 DRIVERS = ['FinVerif.Driver.C02', 'FinVerif.Driver.C01']
-GEN = ['RatesF', 'RatesR']
+GEN = ['RatesF', 'RatesR', 'CurvesF']   # CurvesF: imported by Driver/C02, which this check also builds
 TOL = 1e-8          # value / notional, sequential bootstrap (newton tol 1e-10)
 LS_TOL = 1e-6       # value / notional, global least-squares refit of the non-local interpolators
 RULE = ('seeded quote sets in three regimes cycled per case (positive rates -1 %..+12 %; EUR-2021 style negative rates: deposits/FRAs/'
